@@ -131,6 +131,22 @@ def units(ctx: Ctx, only=None):
             l1cases.append([1 + n % 4, sd, bytes(ctx.rng.randrange(256) for _ in range(16)), l0,
                             bytes(ctx.rng.randrange(256) for _ in range(ctx.rng.choice([0, 32, 64])))])
         l1cases.append([4, b"", bytes(16), 2 ** 31, b"x"])  # OverflowError on both sides
+        # the same (root key id, L0) with different root key bytes, hashes and SDs back to back: a result must depend on
+        # all of its inputs, not on what an earlier call in the same process happened to use
+        same_id = bytes(range(16, 32))
+        for l0 in (361, 362):
+            for rootkey in (b"A" * 64, b"B" * 64, b"A" * 64):
+                for hid in (4, 1, 2, 3, 4):
+                    for sd in (b"", b"sd-one", b"sd-two"):
+                        l1cases.append([hid, sd, same_id, l0, rootkey])
+    if not replaying:
+        # likewise for compute_l2_key: one envelope identity, different key material / hashes, repeated
+        rkx = bytes(range(32, 48))
+        for rep in range(2):
+            for hid in (4, 2):
+                for k1 in (b"\x01" * 8, b"\x02" * 8):
+                    cases.append([hid, 3, 30, 5, 7, 361, rkx, k1, b"\x09" * 8 if rep else b"\x08" * 8])
+                    cases.append([hid, 5, 6, 5, 7, 361, rkx, k1, b"\x09" * 8 if rep else b"\x08" * 8])
     return [
         Unit("chain.l2", "chain.l2", cases, impl_l2, prop_pred=pred_l2),
         Unit("chain.l1", "chain.l1", l1cases, impl_l1),
